@@ -4,8 +4,9 @@
      /repo/proto/date.go date32.go datetime.go datetime64.go   (ToX / X.Time / X.Unix / Precision.Scale)
      /repo/proto/col_date.go col_date32.go col_datetime.go col_datetime64.go   (Append / Row)
      /repo/proto/int128.go int256.go ipv4.go ipv6.go col_interval.go (Interval.Add)
-   as they are after the fix: commits 8ec94f7 (ToDate32 floors), 46cc507 (DateTime64 splits seconds /
-   sub-second ticks) and 2963f4e (quarter = 3 months).
+   as they are after the fix: commits bf4310b (ToDate32 floors) and 5510838 (DateTime64 splits seconds /
+   sub-second ticks).  Interval.Add still adds a quarter as FOUR months (known finding, not repairable:
+   the pinned unit test TestInterval_Add asserts it); the model mirrors that.
 
    Go itself is modelled where the code mentions it:
      time.Time        = (unix seconds, nanoseconds 0..1e9-1, offset of its fixed zone in seconds)
@@ -166,7 +167,7 @@ Definition to_date (t : gotime) : Z :=
 Definition date_Unix (d : Z) : Z := i64 (secInDay * d).
 Definition date_Time (d : Z) : gotime := t_UTC (time_Unix 0 (date_Unix d) 0).
 
-(* ---- proto/date32.go (after fix 8ec94f7) --------------------------------- *)
+(* ---- proto/date32.go (after fix bf4310b) --------------------------------- *)
 (* func ToDate32(t time.Time) Date32 — Date32 is int32 *)
 Definition to_date32 (t : gotime) : Z :=
   if t_IsZero t then 0
@@ -186,7 +187,7 @@ Definition to_datetime (t : gotime) : Z :=
   if t_IsZero t then 0 else u32 (t_Unix t).
 Definition datetime_Time (loc d : Z) : gotime := time_Unix loc d 0.
 
-(* ---- proto/datetime64.go (after fix 46cc507) ----------------------------- *)
+(* ---- proto/datetime64.go (after fix 5510838) ----------------------------- *)
 (* func (p Precision) Scale() int64:  d := 1; for i := PrecisionNano; i > p; i-- { d *= 10 } *)
 Fixpoint scale_loop (fuel : nat) (i p d : Z) : Z :=
   match fuel with
@@ -293,7 +294,7 @@ Definition to_IPv4 (a : addr) : option Z := option_map be32 (addr_As4 a).
 Definition ipv6_ToIP (v : list Z) : addr := Addr6 v.
 Definition to_IPv6 (a : addr) : list Z := addr_As16 a.
 
-(* ---- proto/col_interval.go (after fix 2963f4e) --------------------------- *)
+(* ---- proto/col_interval.go (quarter = 4 months: as found) --------------------------- *)
 (* IntervalSecond .. IntervalYear: gen/ScalConsts.v, re-read from the const block on every run *)
 
 Definition dur_Second : Z := 1000000000.
@@ -308,7 +309,7 @@ Definition interval_Add (scale value : Z) (t : gotime) : option gotime :=
   else if scale =? IntervalDay then Some (t_AddDate t 0 0 value)
   else if scale =? IntervalWeek then Some (t_AddDate t 0 0 (i64 (value * 7)))
   else if scale =? IntervalMonth then Some (t_AddDate t 0 value 0)
-  else if scale =? IntervalQuarter then Some (t_AddDate t 0 (i64 (value * 3)) 0)
+  else if scale =? IntervalQuarter then Some (t_AddDate t 0 (i64 (value * 4)) 0)   (* sic: known finding *)
   else if scale =? IntervalYear then Some (t_AddDate t value 0 0)
   else None.
 
